@@ -1,8 +1,158 @@
 import RisorModel.Util
-/-! Line-protocol front end of the C15 model (stub until the model exists). -/
+import RisorModel.C15.Model
+/-!
+Line-protocol front end of the C15 model (requests after the leading `C15` field).
+
+Values travel in one TAB field as space-separated prefix tokens:
+  N | T | U | I <dec> | F <16 hex digits of the IEEE-754 bits> | B <n> | S <hex> | E <hex> <0|1>
+  | L <n> v₁…vₙ | M <n> k₁ v₁ … kₙ vₙ (keys hex, sorted) | Z <n> v₁…vₙ (SortedItems order)
+
+Requests:
+  pair  <a> <b>      → eq= qe= cmp= pmc= hk= kh= tr= lz= in= ne= lt= le= gt= ge= lossy= seq= scmp=
+  sort  <L …>        → ok <i,j,…> lossy=<0|1>   | err lossy=…      (indices into the input)
+  mkset <L …>        → ok <i,j,…>               | err               (kept representative per slot)
+-/
 namespace Risor.C15
+open Risor.Util
+
+def hexNat (s : String) : Option Nat :=
+  s.toList.foldl (fun acc c => match acc, hexVal c with
+    | some a, some d => some (a * 16 + d)
+    | _, _ => none) (some 0)
+
+/-- decode IEEE-754 binary64 bits; `none` for NaN -/
+def decodeF (bits : Nat) : Option F :=
+  let sign := bits / 2 ^ 63 % 2
+  let e := bits / 2 ^ 52 % 2048
+  let m := bits % 2 ^ 52
+  if e = 2047 then
+    if m = 0 then some (if sign = 1 then .ninf else .pinf) else none
+  else
+    let mag : Nat := if e = 0 then m else (2 ^ 52 + m) * 2 ^ (e - 1)
+    some (.fin (if sign = 1 then -(Int.ofNat mag) else Int.ofNat mag))
+
+/-- encode back (the sign of zero is not part of the model: +0) -/
+def encodeF : F → Nat
+  | .pinf => 2047 * 2 ^ 52
+  | .ninf => 2 ^ 63 + 2047 * 2 ^ 52
+  | .fin n =>
+    let mag := n.natAbs
+    let s := if n < 0 then 2 ^ 63 else 0
+    if mag < 2 ^ 52 then s + mag
+    else
+      let e := mag.log2 - 52
+      s + (e + 1) * 2 ^ 52 + (mag / 2 ^ e - 2 ^ 52)
+
+def hex16 (n : Nat) : String :=
+  String.ofList ((List.range 16).reverse.map fun i => hexDigit (n / 16 ^ i % 16))
+
+def parseN (fuel : Nat) (p : List String → Option (Val × List String)) :
+    Nat → List String → Option (List Val × List String)
+  | 0, ts => some ([], ts)
+  | n + 1, ts =>
+    match fuel with
+    | 0 => none
+    | _ + 1 =>
+      match p ts with
+      | none => none
+      | some (v, ts') =>
+        match parseN fuel p n ts' with
+        | none => none
+        | some (vs, ts'') => some (v :: vs, ts'')
+
+def parseKV (p : List String → Option (Val × List String)) :
+    Nat → List String → Option (List (List Nat) × List Val × List String)
+  | 0, ts => some ([], [], ts)
+  | n + 1, k :: ts =>
+    match fromHex k, p ts with
+    | some kb, some (v, ts') =>
+      match parseKV p n ts' with
+      | some (ks, vs, ts'') => some (kb :: ks, v :: vs, ts'')
+      | none => none
+    | _, _ => none
+  | _ + 1, [] => none
+
+def parseVal : Nat → List String → Option (Val × List String)
+  | 0, _ => none
+  | fuel + 1, ts =>
+    match ts with
+    | "N" :: r => some (.nil, r)
+    | "T" :: r => some (.bool true, r)
+    | "U" :: r => some (.bool false, r)
+    | "I" :: d :: r => d.toInt?.map fun i => (.int i, r)
+    | "F" :: h :: r => (hexNat h).bind fun b => (decodeF b).map fun f => (.float f, r)
+    | "B" :: d :: r => d.toNat?.map fun n => (.byte n, r)
+    | "S" :: h :: r => (fromHex h).map fun s => (.str s, r)
+    | "E" :: h :: f :: r => (fromHex h).map fun s => (.err s (f == "1"), r)
+    | "L" :: d :: r =>
+      d.toNat?.bind fun n => (parseN fuel (parseVal fuel) n r).map fun (vs, r') => (.list vs, r')
+    | "Z" :: d :: r =>
+      d.toNat?.bind fun n => (parseN fuel (parseVal fuel) n r).map fun (vs, r') => (.set vs, r')
+    | "M" :: d :: r =>
+      d.toNat?.bind fun n => (parseKV (parseVal fuel) n r).map fun (ks, vs, r') => (.map ks vs, r')
+    | _ => none
+
+def parseField (s : String) : Option Val :=
+  let ts := (s.splitOn " ").filter (· ≠ "")
+  match parseVal (ts.length + 1) ts with
+  | some (v, []) => some v
+  | _ => none
+
+def b01 (b : Bool) : String := if b then "1" else "0"
+
+def showOI : Option Int → String
+  | some i => toString i
+  | none => "err"
+
+def showOB : Option Bool → String
+  | some b => b01 b
+  | none => "err"
+
+def tyName : Ty → String
+  | .nil => "nil" | .bool => "bool" | .int => "int" | .float => "float" | .byte => "byte"
+  | .str => "string" | .err => "error" | .list => "list" | .map => "map" | .set => "set"
+
+def showHK : Option HashKey → String
+  | none => "none"
+  | some k => tyName k.ty ++ "/" ++ toString k.int ++ "/" ++ toHexField k.str ++ "/" ++ hex16 (encodeF k.flt)
+
+def showIdx (xs : List (Nat × Val)) : String :=
+  if xs.isEmpty then "-" else ",".intercalate (xs.map fun p => toString p.1)
+
+def indexed (xs : List Val) : List (Nat × Val) := (List.range xs.length).zip xs
 
 def handle : List String → String
-  | _ => "error\tnot-implemented"
+  | ["pair", a, b] =>
+    match parseField a, parseField b with
+    | some a, some b =>
+      " ".intercalate [
+        "eq=" ++ b01 (equals a b), "qe=" ++ b01 (equals b a),
+        "cmp=" ++ showOI (compare a b), "pmc=" ++ showOI (compare b a),
+        "hk=" ++ showHK (hashKey a), "kh=" ++ showHK (hashKey b),
+        "tr=" ++ b01 (truthy a),
+        "lz=" ++ (match len a with | some n => b01 (n == 0) | none => "none"),
+        "in=" ++ showOB (contains a b),
+        "ne=" ++ b01 (notEquals a b),
+        "lt=" ++ showOB (opLt a b), "le=" ++ showOB (opLe a b),
+        "gt=" ++ showOB (opGt a b), "ge=" ++ showOB (opGe a b),
+        "lossy=" ++ b01 (lossy a b),
+        "seq=" ++ b01 (xequals a b), "scmp=" ++ showOI (xcompare a b)]
+    | _, _ => "error\tbad-value"
+  | ["sort", l] =>
+    match parseField l with
+    | some (.list xs) =>
+      let r := sortM (fun (p q : Nat × Val) => lessM p.2 q.2) (indexed xs)
+      (match r with
+       | some ys => "ok " ++ showIdx ys
+       | none => "err") ++ " lossy=" ++ b01 (lossyAny xs)
+    | _ => "error\tbad-value"
+  | ["mkset", l] =>
+    match parseField l with
+    | some (.list xs) =>
+      if allHashable xs then
+        "ok " ++ showIdx (buildSet (fun (p : Nat × Val) => keyOf p.2) (indexed xs))
+      else "err"
+    | _ => "error\tbad-value"
+  | _ => "error\tunknown-request"
 
 end Risor.C15
